@@ -106,6 +106,17 @@ PROPS["C17"]["suites"] += [
 PROPS["C17"]["assumptions"] = PROPS["C17"]["assumptions"] + BUF_ASSUME[:2]
 
 
+def _c17l_tasks(tier, seed):
+    return [("unit_c17_leftovers", (part, 16, seed)) for part in range(16)]
+
+
+SPECIAL_C17L = _c17l_tasks
+PROPS["C17"]["suites"] += [dict(unit="unit_c17_leftovers", special="c17l")]
+PROPS["C17"]["rule"] += ("; directory audit: on 8 JSON classes x threading on/off x write_concern on/off x file missing/existing x what another writer left in the "
+                        "directory (complete / cut-off temporary file of an atomic save, backup-style siblings, nothing) x {unbuffered, obj.buffered, buffer_backend()}: "
+                        "after each of 8 kinds of read and after leaving the context, names, bytes, inode and mtime of EVERY file in the directory are unchanged")
+
+
 def _iofault_tasks(tier, seed):
     return [("unit_buf_io_faults", (fam, isd, mode, seed)) for fam in BUF_FAMS for isd in (True, False)
             for mode in ("exit", "object", "forced")]
@@ -152,7 +163,7 @@ def _c11f_tasks(tier, seed):
     return [("unit_c11_foreign", (fam, seed)) for fam in range(6)]
 
 
-SPECIAL = {"iofault": _iofault_tasks, "c06h": _c06h_tasks, "c06s": _c06s_tasks, "awkward": _awkward_tasks, "c11f": _c11f_tasks}
+SPECIAL = {"c17l": SPECIAL_C17L, "iofault": _iofault_tasks, "c06h": _c06h_tasks, "c06s": _c06s_tasks, "awkward": _awkward_tasks, "c11f": _c11f_tasks}
 
 C08_SCENARIOS = ["dict_default", "dict_default_fresh", "dict_default_shorter", "dict_write_concern_nothreads",
                  "attrdict_default", "dict_plain_nothreads", "dict_threads_enabled_after_construction",
@@ -604,3 +615,11 @@ def replay(prop, path):
 
 
 REPLAYERS = {}
+
+
+def _replay_c17l(prop, path, payload, ns):
+    import c17
+    return c17.replay(prop, path, payload, ns)
+
+
+REPLAYERS["c17l"] = _replay_c17l
